@@ -206,3 +206,48 @@ func (g *G) r9Cases() {
 		}
 	}
 }
+
+// ---------------------------------------------------------------------------------------------
+// round 10: clients with Config.Renegotiation enabled
+
+var plainMarker = []byte("c15 plaintext application data")
+
+// thenPlainApp: after its flow the scripted server writes ONE application-data record IN THE CLEAR, bypassing its record layer.
+func thenPlainApp(conn net.Conn, vers uint16, log string) string {
+	if strings.HasSuffix(log, "flow finished") {
+		rec := append([]byte{23, byte(vers >> 8), byte(vers), 0, byte(len(plainMarker))}, plainMarker...)
+		conn.Write(rec)
+	}
+	return log
+}
+
+// readPlainApp: pt=1 iff the victim's Read returns that record, i.e. its inbound cipher was never switched on.
+func readPlainApp(c *gmtls.Conn) string {
+	buf := make([]byte, 128)
+	n, _ := c.Read(buf)
+	if n > 0 && bytes.Equal(buf[:n], plainMarker) {
+		return "pt=1"
+	}
+	return "pt=0"
+}
+
+func (g *G) r10Cases() {
+	tails := []string{"CCS|FIN", "FIN", "HR|FIN", "HX|FIN", "FIN|CCS"}
+	type sv struct {
+		suite, chv uint16
+	}
+	for _, c := range []sv{{0x002f, 0x0301}, {0x002f, 0x0303}, {0x009c, 0x0303}} {
+		for rn := 1; rn <= 2; rn++ {
+			for _, t := range tails {
+				g.emit("R", fmt.Sprintf("ct %04x cc=0,cr=0,tk=0,rn=%d %04x SH|CERT|SHD/%s", c.suite, rn, c.chv, t))
+			}
+		}
+	}
+	for _, suite := range []uint16{0xe013, 0xe053} {
+		for rn := 1; rn <= 2; rn++ {
+			for _, t := range tails {
+				g.emit("R", fmt.Sprintf("cg %04x cc=0,cr=0,tk=0,rn=%d - SH|CERT|SKX|SHD/%s", suite, rn, t))
+			}
+		}
+	}
+}
